@@ -1358,6 +1358,19 @@ func replayFile(path string, bs []int) {
 		runTrace(&tr, 1)
 		return
 	}
+	var ch struct {
+		Churn churnCase `json:"churn"`
+	}
+	if json.Unmarshal(doc.Replay, &ch) == nil && ch.Churn.Workers > 0 && len(ch.Churn.Classes) > 0 {
+		for _, cl := range ch.Churn.Classes {
+			if cl < 0 || cl >= len(slots) {
+				fmt.Println("bad replay file: class out of range")
+				os.Exit(3)
+			}
+		}
+		replayChurn(ch.Churn)
+		return
+	}
 	var cc struct {
 		Concurrent struct {
 			Name                          string
@@ -1562,6 +1575,11 @@ func main() {
 			hint := len(slots) - 1 - g.Intn(10)
 			runConcurrent(fmt.Sprintf("conc-w%d-%d", w, k), g, w, 4, r.N(400, 2500), bs, hint)
 		}
+	}
+
+	// 5b. steady-state churn: 2..4 goroutines sharing one to three size classes in free-list mode (churn.go)
+	if only == "" || only == "churn" {
+		runChurnStream(g, r.N(12, 48))
 	}
 
 	// 6. the concurrent stream once more under the race detector (thorough only; race.go)
